@@ -31,6 +31,59 @@ def _copy_root(f, local, limit=8):
     return local
 
 
+def _through_aggs(f, place, limit=12):
+    """Resolve a place with projections (`(*range).end`, `(r as Ok).0.start`)
+    back through copies, references and the aggregates (struct, tuple or one
+    enum variant) the value was built from, to the operand that supplied the
+    selected component.  Returns an operand or None."""
+    local, projs = place[0], [p for p in place[1] if p != "*"]
+    for _ in range(limit):
+        if not projs:
+            return ["cp", [local, []]]
+        if 1 <= local <= f.arg_count:
+            return None
+        ds = f.defs().get(local, [])
+        if f.partial_defs().get(local):
+            return None
+        cand = None
+        if len(ds) == 1:
+            cand = ds[0]
+        elif projs[0][0] == "d":
+            m = [d for d in ds if d[2] == "rv" and d[3][0] == "agg" and d[3][1].get("variant") == projs[0][1]]
+            if len(m) == 1 and all(d[2] == "rv" and d[3][0] == "agg" for d in ds):
+                cand = m[0]
+        if cand is None or cand[2] != "rv":
+            return None
+        rv = cand[3]
+        if rv[0] in ("use", "cfd") and (rv[0] == "cfd" or mir.is_place_operand(rv[1])):
+            pl = rv[1] if rv[0] == "cfd" else mir.op_place(rv[1])
+            local, projs = pl[0], [p for p in pl[1] if p != "*"] + projs
+            continue
+        if rv[0] == "ref":
+            pl = rv[2]
+            local, projs = pl[0], [p for p in pl[1] if p != "*"] + projs
+            continue
+        if rv[0] == "agg":
+            kd, aops = rv[1], rv[2]
+            if kd.get("is_enum"):
+                if projs[0][0] != "d" or projs[0][1] != kd.get("variant"):
+                    return None
+                projs = projs[1:]
+            elif projs[0][0] == "d":
+                return None
+            if not projs or projs[0][0] != "f" or projs[0][1] >= len(aops):
+                return None
+            o = aops[projs[0][1]]
+            projs = projs[1:]
+            if not mir.is_place_operand(o):
+                return o if not projs else None
+            pl = mir.op_place(o)
+            local, projs = pl[0], [p for p in pl[1] if p != "*"] + projs
+            continue
+        return None
+    return None
+
+
 def var_of(f, op, depth=0):
     """Resolve an operand to a term:
        ('const', v) | ('var', local) | ('sub', term, term) | ('add', term, term)
@@ -44,6 +97,12 @@ def var_of(f, op, depth=0):
     local, projs = pl
     # strip a leading deref of a reference to a variable
     if projs and not all(p == "*" for p in projs):
+        # a component of a value that was built from its parts in this
+        # function (`Ok(start .. end)` matched later, `(*range).end`)
+        if depth < 10:
+            o2 = _through_aggs(f, pl)
+            if o2 is not None and o2 != op and not (mir.is_place_operand(o2) and mir.op_place(o2) == pl):
+                return var_of(f, o2, depth + 1)
         # payload of a `?` / Ok / Some on a call result
         import ops as _ops
         src = _ops.try_chain_source(f, op)
